@@ -54,14 +54,14 @@ def f64BitsOfF32Bits (b : Nat) : Nat :=
   let m := b % 2 ^ 23
   let s64 := sign * 2 ^ 63
   if e = 255 then
-    if m = 0 then s64 + 2047 * 2 ^ 52 else s64 + 2047 * 2 ^ 52 + 2 ^ 51 + (m % 2 ^ 22) * 2 ^ 29 + (if m / 2 ^ 22 = 1 then 0 else 0)
+    if m = 0 then s64 + 2047 * 2 ^ 52 else s64 + 2047 * 2 ^ 52 + 2 ^ 51 + (m % 2 ^ 22) * 2 ^ 29
   else if e = 0 then
     if m = 0 then s64
     else
       -- subnormal f32: value m * 2^-149, normal in f64
       let l := log2Nat m
       s64 + (1023 - 149 + l) * 2 ^ 52 + (m * 2 ^ (52 - l) - 2 ^ 52)
-  else s64 + (e - 127 + 1023) * 2 ^ 52 + m * 2 ^ 29
+  else s64 + (e + 896) * 2 ^ 52 + m * 2 ^ 29      -- rebias: e - 127 + 1023
 
 /-- sign bit of a binary64 pattern. -/
 def f64Sign (b : Nat) : Bool := (b / 2 ^ 63) % 2 == 1
